@@ -139,8 +139,15 @@ package scheduler
 // nestedSchedulable(p): every pipeline included by a stage of p (recursively) is schedulable; its
 // one-step unfolding is assumed at the spawn site (recursive data-structure invariant, see DESIGN.md)
 //@ fun nestedSchedulable(p *ExecutionGraph) bool
+// incRank: a ranking of the pipelines under which every included pipeline lies strictly below the
+// including one. It exists for every accepted configuration because the loader refuses inclusion
+// cycles (config.checkPipelineInclusion feeds the inclusion relation to AddStage, C05); that a finite
+// acyclic relation has such a ranking is the paper step. rankedG is part of schedulable, i.e. of what
+// is assumed of a loaded pipeline at the CLI boundary and at the nested unfolding.
+//@ fun incRank(p *ExecutionGraph) int
+//@ pred rankedG(p *ExecutionGraph) := forall n string :: n in p.nodes && p.nodes[n].Pipeline != nil ==> incRank(p.nodes[n].Pipeline) < incRank(p)
 //@ pred hasWork(p *ExecutionGraph) := forall n string :: n in p.nodes ==> p.nodes[n].Pipeline != nil || p.nodes[n].Task != nil
-//@ pred schedulable(p *ExecutionGraph) := wfS(p) && depsAre(p) && hasWork(p) && (forall n string :: n in p.nodes ==> !spawned[p.nodes[n]]) && nestedSchedulable(p)
+//@ pred schedulable(p *ExecutionGraph) := wfS(p) && depsAre(p) && hasWork(p) && (forall n string :: n in p.nodes ==> !spawned[p.nodes[n]]) && nestedSchedulable(p) && rankedG(p)
 
 //@ func checkStageCondition
 //@   nomod
@@ -199,11 +206,16 @@ package scheduler
 //@     requires #C10.stage-vars-over-task-vars stage.Variables != nil && old(stage.Task.Variables) != nil ==> over(stage.Task.Variables, old(stage.Task.Variables), stage.Variables)
 //@   callsite Schedule
 //@     requires #C18.no-inclusion-cycle !(stage.Name in stage.Pipeline.nodes && stage.Pipeline.nodes[stage.Name] == stage)
-//@     assume stage.Status == old(stage.Status) // a stage is not a node of the pipeline it includes (see known finding: pipeline inclusion cycles)
+//@     assume stage.Status == old(stage.Status) // the nested run writes only the statuses of the included pipeline's own nodes, and this stage is not one of them (the obligation above)
 
 //@ func NewExecutionGraph
-//@   nomod
+//@   requires forall i int :: 0 <= i && i < len(stages) ==> stages[i] != nil
+//@   modifies nothing
+//@   loop 1 "range stages"
+//@     invariant #same graph != nil && fresh(graph) && allocated(graph) && wfG(graph) && fresh(graph.nodes) && fresh(graph.from) && fresh(graph.to) && stages == stages0
+//@     invariant #empty-if-none len(stages) == 0 ==> (forall n string :: !(n in graph.nodes) && len(graph.to[n]) == 0)
 //@   ensures result#1 == nil ==> result != nil && fresh(result) && wfG(result)
+//@   ensures #own-maps result#1 == nil ==> fresh(result.nodes) && fresh(result.from) && fresh(result.to)
 //@   ensures result#1 == nil && len(stages) == 0 ==> (forall n string :: !(n in result.nodes) && len(result.to[n]) == 0)
 
 //@ func NewScheduler
